@@ -991,6 +991,12 @@ mod imp {
                 }
             }
 
+            // an end delimiter that is empty can never be found
+            if self.variable_end.is_empty() || self.block_end.is_empty() || self.comment_end.is_empty()
+            {
+                return Err(ErrorKind::InvalidDelimiter.into());
+            }
+
             Ok(delims)
         }
     }
